@@ -146,6 +146,15 @@ def make_table(rng):
                 rows += extra
         else:
             rows += extra
+    # modified nucleotides are HETATM records in deposited files
+    for r in rows:
+        if r["rec"] == "ATOM" and r["resname"] not in ("A", "C", "G", "U", "DA", "DC", "DG", "DT"):
+            r["rec"] = "HETATM"
+    # the molecule far from the origin: coordinates that fill the PDB fields completely (z <= -100, x >= 1000)
+    if rng.random() < 0.25:
+        dx, dy, dz = rng.choice([(1200.0, -350.0, -400.0), (0.0, 0.0, -160.0), (-300.0, 2000.0, -120.0)])
+        for r in rows:
+            r["x"], r["y"], r["z"] = round(r["x"] + dx, 3), round(r["y"] + dy, 3), round(r["z"] + dz, 3)
     # serial numbers as deep inside a large entry (HETATM records whose five-digit serial touches the record name)
     off = rng.choice([0, 0, 9990, 99000, 99999 - len(rows)])
     for i, r in enumerate(rows, 1):
@@ -271,6 +280,21 @@ def run_case(case, rec):
     rec.check("residues.same-atoms-and-coordinates", bad_atoms is None, lambda: det({"reader": bad_atoms[0], "vs-table": bad_atoms[1]}))
     if bad_set or bad_atoms:
         return
+    # ---- nucleic-acid-only reading of the residue-level reader: the same residues from both formats, namely the
+    # nucleotides of the default reading (no entity tables in these files: the atom-based definition decides) ----
+    try:
+        na = {}
+        for name, text, suf in (("v1-pdb", pdb_text, ".pdb"), ("v1-cif", cif_text, ".cif")):
+            pth = emit.scratch_path(suf)
+            with open(pth, "w") as fh:
+                fh.write(text)
+            with open(pth) as fh:
+                na[name] = v1_map(parser.read_3d_structure(fh, None, nucleic_acid_only=True))[0]
+        want_na = {k: v for k, v in readings["v1-pdb"].items() if objs["v1-pdb"][k].is_nucleotide}
+        bad_na = next(((n, sorted(set(want_na) ^ set(m))[:4]) for n, m in na.items() if set(m) != set(want_na) or any(m[k] != want_na[k] for k in m)), None)
+        rec.check("residues.nucleic-acid-only-same-from-both-formats", bad_na is None, lambda: det({"reader": bad_na[0], "differs-on": bad_na[1], "nucleotides-in-default-reading": len(want_na)}))
+    except Exception as e:
+        rec.violation("readers.no-crash", det({"exception": repr(e)[:300], "option": "nucleic_acid_only=True"}), mechanism=f"crash:{type(e).__name__}")
     # ---- connectivity: consecutive residues of each chain (table order) ----
     nchi = 0
     undecided = False
